@@ -459,7 +459,8 @@ def mutations(ctx, kt, base, other):
         if m not in base:
             continue
         s = base[m]
-        for bad in ["!", "+", "/", " ", "\n", ".", "é", "\ud800", "=", "\x00"]:
+        bads = ["!", "+", "/", " ", "\n", ".", "é", "\ud800", "=", "\x00"]
+        for bad in (bads if not ctx.quick else rng.sample(bads, 4)):
             i = rng.randrange(len(s)) if len(s) > 1 else 0
             t = s[:i] + bad + s[i + 1:] if bad != "=" else s[:max(i - 1, 0)] + "=" + s[max(i - 1, 0):]
             if t != s:
@@ -516,12 +517,14 @@ def mutations(ctx, kt, base, other):
         add("revalue", "key_ops", "any", dict(base, key_ops=["sign", "bogus"]))
         add("revalue", "key_ops", "any", dict(base, key_ops=["sign", "sign"]))
     # --- kty / crv
-    for bad in ["", "oct ", "rsa", "ec", "EC2", "okp", "Oct", "RSÁ", "none"]:
+    kbad = ["", "oct ", "rsa", "ec", "EC2", "okp", "Oct", "RSÁ", "none"]
+    for bad in (kbad if not ctx.quick else rng.sample(kbad, 3)):
         add("unknown-kty", "kty", "refuse-registry", dict(base, kty=bad))
     for wrong in [k for k in KT if k != kt]:
         add("other-kty", "kty", "any", dict(base, kty=wrong))
     if "crv" in base:
-        for bad in ["", "P-255", "p-256", "P-256 ", "secp256r1", "Ed25519 ", "ed25519", "P-512", "X-25519"]:
+        cbad = ["", "P-255", "p-256", "P-256 ", "secp256r1", "Ed25519 ", "ed25519", "P-512", "X-25519"]
+        for bad in (cbad if not ctx.quick else rng.sample(cbad, 4)):
             add("unknown-crv", "crv", "refuse", dict(base, crv=bad))
         family = CURVE_L if kt == "EC" else OKP_L
         for c in family:
@@ -629,7 +632,7 @@ def run(ctx):
                     if jwk.get(k_) != v_:
                         ctx.violation({"kind": "export-params", "kty": kt}, "parameter %s not exported" % k_, dict(rep, jwk=jwk))
             # re-import (class and registry)
-            for reg in (False, True):
+            for reg in ((False, True) if (not ctx.quick or kt != "oct" or rng.random() < 0.15) else (False,)):
                 r = do_import(reg, kt, jwk, None)
                 if r[0] != "ok":
                     ctx.violation({"kind": "reimport-raises", "kty": kt, "form": fname},
@@ -902,7 +905,7 @@ def run(ctx):
         return {rng.choice(["a", "use", "kty"]): rand_val(depth + 1) for _ in range(rng.randrange(0, 3))}
     names = ["kty", "use", "key_ops", "alg", "kid", "x5u", "x5c", "x5t", "x5t#S256", "k", "n", "e", "d", "p", "q", "dp", "dq", "qi", "oth",
              "crv", "x", "y", "foo"]
-    for _ in range(ctx.scale(1500, 40000)):
+    for _ in range(ctx.scale(1000, 40000)):
         kt = rng.choice(list(KT))
         d = {}
         for m in REQUIRED[kt]:
